@@ -265,33 +265,24 @@ func (rsc *service) updatePodGPUGroup(
 }
 
 func (rsc *service) RemovePodGpuGroupsConnection(ctx context.Context, pod *v1.Pod) error {
-	var patch []map[string]string
+	// A merge patch with null values: unlike a JSON patch "remove", it does not fail (and drop the whole patch)
+	// when one of the labels never reached the API server, e.g. because its own patch failed.
+	labelsToRemove := map[string]any{}
 	for labelKey := range pod.Labels {
 		if labelKey == constants.GPUGroup || strings.HasPrefix(labelKey, constants.MultiGpuGroupLabelPrefix) {
-			patch = append(patch, map[string]string{
-				"op":   "remove",
-				"path": fmt.Sprintf("/metadata/labels/%s", escapeJSONPointer(labelKey)),
-			})
+			labelsToRemove[labelKey] = nil
 		}
 	}
 
-	patchBytes, err := json.Marshal(patch)
+	patchBytes, err := json.Marshal(map[string]any{"metadata": map[string]any{"labels": labelsToRemove}})
 	if err != nil {
 		return fmt.Errorf("failed to generate a patch for pod gpu-group removal. %w", err)
 	}
 
-	if err := rsc.kubeClient.Patch(ctx, pod, client.RawPatch(types.JSONPatchType, patchBytes)); err != nil {
+	if err := rsc.kubeClient.Patch(ctx, pod, client.RawPatch(types.MergePatchType, patchBytes)); err != nil {
 		return err
 	}
 	return nil
-}
-
-// escapeJSONPointer escapes a string for use in a JSON Pointer path (RFC 6901).
-// ~ must be escaped as ~0, and / must be escaped as ~1.
-func escapeJSONPointer(s string) string {
-	s = strings.ReplaceAll(s, "~", "~0")
-	s = strings.ReplaceAll(s, "/", "~1")
-	return s
 }
 
 func (rsc *service) acquireGPUIndexByGroup(ctx context.Context, nodeName, gpuGroup string) (string, error) {
